@@ -71,16 +71,43 @@ def _modesel(chk):
     chk.info["modesel_sites"] = n
 
 
+def _stage_inverse(chk):
+    """Whitener / PCA: the inverse data (pattern) map undoes the forward data (pattern) map.
+    Whitener: forward X T, inverse X Tinv - the two stored matrices, with the SAME conjugation (T Tinv = I and
+    conj(T) conj(Tinv) = I, but T conj(Tinv) != I for complex data).  PCA: forward X V, inverse X V^H - the same
+    isometric matrix with OPPOSITE conjugation."""
+    from .c16 import MAPS, _map_facts
+    pm = chk.pm
+    for q, kind in (("xeofs.preprocessing.whitener.Whitener", "inverse-pair"), ("xeofs.preprocessing.pca.PCA", "isometry")):
+        cls = pm.cls(q)
+        facts = {role: _map_facts(chk, cls, m) for m, role in MAPS.items()}
+        for what in ("data", "pattern"):
+            f, i = facts[(what, "fwd")], facts[(what, "inv")]
+            (fm, fc, _), (im, ic, _) = f[2], i[2]
+            if kind == "inverse-pair":
+                ok = {fm, im} == {"T", "Tinv"} and fc == ic
+                why = (f"the {what} maps of the whitener must use T and Tinv with the same conjugation so that their product is the identity "
+                       f"(forward: {fm} conj={fc}; inverse: {im} conj={ic}): un-whitening complex data no longer restores it")
+            else:
+                ok = fm == im == "V" and fc != ic
+                why = (f"the {what} maps of the PCA stage must be V and V^H (forward: {fm} conj={fc}; inverse: {im} conj={ic}): "
+                       "expanding complex PC scores no longer restores the data")
+            chk.check(ok, "MIRROR.stage_inverse", i[0], i[1], construct=f"{cls.name}.{i[0].name} undoes {cls.name}.{f[0].name}", why=why,
+                      facts={"forward": list(f[2]), "inverse": list(i[2])})
+
+
 def check(chk):
     _modesel(chk)
     _affine(chk)
     _stages(chk)
     _scores_identity(chk)
     _norms(chk)
+    _stage_inverse(chk)
+    chk.floor("MIRROR.stage_inverse", 4)
     chk.floor("MIRROR.affine", 6)
     chk.floor("MIRROR.stages", 40)
     chk.floor("MIRROR.norms", 8)
-    chk.floor("MIRROR.modesel", 6)
+    chk.floor("MIRROR.modesel", 5)
 
 
 def _scaler_steps(chk, fn: FuncInfo):
